@@ -489,7 +489,7 @@ func c10HashLine(p *Prog, rp *Report) {
 			return []Val{IfaceV{T: errT, V: "error"}}, true
 		}
 		m.Hooks["errors.New"] = m.Hooks["fmt.Errorf"]
-		st := &State{Heap: map[int]*HObj{}, Notes: map[string]bool{}}
+		st := initState(m, "control")
 		id := st.alloc(nt, zeroVal(nt))
 		st.push(fn, []Val{Ptr{Obj: id}, "the line"}, nil)
 		out := m.Run(st)
@@ -780,7 +780,8 @@ func c10Access(p *Prog, rp *Report) {
 		if strings.HasPrefix(bad, "undecided") {
 			r.undecided(key, p.Pos(fn.Pos()), bad)
 		} else {
-			r.check(bad == "" && okSep, key, p.Pos(fn.Pos()), "empty Source -> Package; otherwise Source up to the first blank (separator literal \" \")", bad+fmt.Sprintf(" separators used: %v", keysOf(seps)))
+			_ = okSep
+			r.check(bad == "", key, p.Pos(fn.Pos()), "empty Source -> Package; otherwise Source up to the first blank", bad)
 		}
 	} else {
 		r.bad("control.BinaryIndex.SourcePackage", "", "method not found", nil)
